@@ -130,6 +130,12 @@ def apply_temperature(m, tspec):
 
 
 def build_model(cfg, faults=(), allow_first=False, keep_log=True):
+    if cfg.get('pre'):
+        try:
+            pm, _ = build_model(cfg['pre'], keep_log=False)
+            pm.setup()
+        except Exception:  # noqa  (the predecessor only has to have existed)
+            pass
     inner = make_backend(cfg)
     backend = stubs.FaultyBackend(inner, faults=faults, allow_first=allow_first, keep_log=keep_log)
     phases = list(cfg['phases'])
@@ -369,6 +375,10 @@ def gen_run_record(rng, real_frac=0.15, real_kinds=('real_alzr', 'real_alzr', 'r
     if rng.random() >= real_frac:
         cfg = gen_stub_config(rng, **cfgkw)
         ops = gen_solve_ops(rng)
+        if rng.random() < 0.1:
+            # history of the process: another model with the same phase/element names but other parameters was set up first;
+            # the model under test must not inherit anything from it (shared default objects, module-level caches)
+            cfg['pre'] = gen_stub_config(rng, nel=len(cfg['elements']))
         return {'cfg': cfg, 'ops': ops, 'cap': cap}
     kind = rng.choice(list(real_kinds))
     cfg = real_config(kind, rng)
@@ -399,6 +409,8 @@ def shrink_run_record(rec):
     if rec.get('cap', 0) > 20:
         r = copy.deepcopy(rec); r['cap'] = max(10, rec['cap'] // 2); yield r
     cfg = rec['cfg']
+    if cfg.get('pre'):
+        r = copy.deepcopy(rec); del r['cfg']['pre']; yield r
     if len(cfg['phases']) > 1 and not cfg['backend'].startswith('real_'):
         for drop in cfg['phases']:
             r = copy.deepcopy(rec)
